@@ -116,6 +116,10 @@ class Run:
             rep["status"] = "missing"
             rep["why"] = str(e)
             ex.obligations = []
+        if getattr(ex, "contradictions", None):
+            rep["contradictions"] = sorted(set(ex.contradictions))
+            self.undecided.append({"obligations": [f"{self.pid}/{fn}/consistency"],
+                                   "why": "a callee's postcondition is literally false after a call: " + rep["contradictions"][0]})
         rep["inlined"] = sorted(ex.inlined)
         self.assumptions |= ex.used_assumptions
         self.trusted |= ex.trusted_used
